@@ -134,6 +134,107 @@ func TestVerifC38(t *testing.T) {
 	// consensus-like point of C38_nonvacuous
 	emitNR(1<<40, 1738076, 256)
 
+	// ---- directed boundary stream (always run, a few hundred cases): inputs SOLVED so that
+	// the exact quotient floor(numerator/denom) is MaxReveals-2 .. MaxReveals+1, the zero
+	// crossing of denom, and the other guards of numReveals / verifyWeights
+	directed := 0
+	emitProbe := func(sw, lnPW, st uint64) {
+		nr, ok := emitNR(sw, lnPW, st)
+		cand := []uint64{0, 1, MaxReveals - 2, MaxReveals - 1, MaxReveals, MaxReveals + 1, MaxReveals + 2}
+		if ok {
+			cand = append(cand, nr, nr+1)
+			if nr >= 1 {
+				cand = append(cand, nr-1)
+			}
+			if nr >= 2 {
+				cand = append(cand, nr-2)
+			}
+		}
+		var probes []interface{}
+		for _, m := range cand {
+			probes = append(probes, vL(m, vC38Err(verifyWeights(sw, lnPW, m, st))))
+		}
+		res, _, _ := vC38NumReveals(sw, lnPW, st)
+		out.Case(vSym("pv"), sw, lnPW, st, res, probes)
+		directed++
+	}
+	quotients := map[uint64]int{}
+	type wp struct{ sw, pw uint64 }
+	weights := []wp{{100, 50}, {100, 1}, {100, 99}, {3, 1}, {2, 1}, {7, 2}, {1000, 300}, {65536, 1000}, {65537, 40000},
+		{1 << 20, 1 << 18}, {1<<32 - 1, 1 << 30}, {1 << 40, 3 << 38}, {1<<40 + 12345, 1 << 39}, {1 << 50, 1 << 49},
+		{1<<63 - 1, 1 << 61}, {1 << 63, 1 << 62}, {^uint64(0), 1 << 63}, {^uint64(0), ^uint64(0) / 3}, {^uint64(0) - 1, 12345}}
+	for _, c := range weights {
+		lnPW, _ := LnIntApproximation(c.pw)
+		// independent big-integer computation of y, x, w, denom (not through getSubExpressions)
+		d := uint(0)
+		for (uint64(1)<<(d+1)) <= c.sw && d < 63 {
+			d++
+		}
+		bsw := new(big.Int).SetUint64(c.sw)
+		sq := new(big.Int).Mul(bsw, bsw)
+		p2d := new(big.Int).Lsh(big.NewInt(1), 2*d)
+		y := new(big.Int).Lsh(big.NewInt(1), d+2)
+		y.Mul(y, bsw).Add(y, sq).Add(y, p2d)
+		x := new(big.Int).Sub(sq, p2d)
+		x.Mul(x, big.NewInt(3<<16))
+		w := new(big.Int).SetUint64(uint64(d) * (ln2IntApproximation - 1))
+		wy := new(big.Int).Mul(w, y)
+		denom := new(big.Int).SetUint64(lnPW)
+		denom.Mul(denom, y).Sub(wy, denom).Add(denom, x)
+		ty := new(big.Int).Mul(big.NewInt(int64(ln2IntApproximation)), y)
+		if denom.Sign() > 0 {
+			// strengthTarget with floor(st*T*y/denom) = q, if one exists: st = ceil(q*denom/(T*y)) and neighbours
+			for q := uint64(MaxReveals - 3); q <= MaxReveals+2; q++ {
+				st := new(big.Int).Mul(new(big.Int).SetUint64(q), denom)
+				st.Add(st, ty).Sub(st, big.NewInt(1)).Div(st, ty)
+				if !st.IsUint64() {
+					continue
+				}
+				for delta := int64(-1); delta <= 1; delta++ {
+					s64 := st.Uint64() + uint64(delta)
+					if delta < 0 && st.Uint64() == 0 {
+						continue
+					}
+					got := new(big.Int).Mul(new(big.Int).SetUint64(s64), ty)
+					got.Div(got, denom)
+					if got.IsUint64() && got.Uint64() >= MaxReveals-3 && got.Uint64() <= MaxReveals+2 {
+						quotients[got.Uint64()]++
+						emitProbe(c.sw, lnPW, s64)
+					}
+				}
+			}
+			emitProbe(c.sw, lnPW, 0) // strength 0: quotient 0, one reveal
+			emitProbe(c.sw, lnPW, 1)
+			emitProbe(c.sw, lnPW, 256)
+		}
+		// zero crossing of denom in lnProvenWeight: largest P with denom > 0 is ceil((w*y+x)/y) - 1
+		pz := new(big.Int).Add(wy, x)
+		pz.Add(pz, y).Sub(pz, big.NewInt(1)).Div(pz, y)
+		if pz.IsUint64() && pz.Uint64() >= 2 {
+			for _, P := range []uint64{pz.Uint64() - 2, pz.Uint64() - 1, pz.Uint64(), pz.Uint64() + 1} {
+				emitProbe(c.sw, P, 1)
+				emitProbe(c.sw, P, 256)
+			}
+		}
+		// proven weight >= signed weight
+		lnSW, _ := LnIntApproximation(c.sw)
+		emitProbe(c.sw, lnSW, 256)
+		emitProbe(c.sw, lnSW+1, 256)
+		emitProbe(c.sw, lnSW-1, 256)
+	}
+	// signedWeight = 1 (d = 0, x = 0, w = 0: never provable) and 0 (verifier only; numReveals(0)
+	// would shift by uint(0)-1 and is never called by the prover)
+	for _, P := range []uint64{0, 1, 45427} {
+		for _, st := range []uint64{0, 1, 256} {
+			emitProbe(1, P, st)
+			for _, m := range []uint64{0, 1, MaxReveals, MaxReveals + 1} {
+				out.Case(vSym("vw"), 0, P, m, st, vC38Err(verifyWeights(0, P, m, st)))
+			}
+		}
+	}
+	stats["directed_cases"] = directed
+	stats["directed_exact_quotients"] = quotients
+
 	for i := 0; i < n; i++ {
 		kind := i % 4
 		sw, lnPW, st := vC38Inputs(r, kind)
